@@ -700,7 +700,11 @@ def apply_event(objs, ev, params=NOPARAMS):
     elif name == "herald":
         objs[t].herald(a[0], mode_arg(a[1]), mode_arg(a[2]))
     elif name == "add":
-        objs[t].add(objs[a[0]], mode_arg(a[1]), group=a[2])
+        MODE_FORMS["names"] = MODE_FORMS.get("names", 0) + 1
+        if a[2] and MODE_FORMS["names"] % 4 == 0:
+            objs[t].add(objs[a[0]], mode_arg(a[1]), group=a[2], name=("" if MODE_FORMS["names"] % 8 == 0 else "a rather long group name"))    # names are free text
+        else:
+            objs[t].add(objs[a[0]], mode_arg(a[1]), group=a[2])
     elif name == "plus":
         objs[t] = objs[a[0]] + objs[a[1]]
     elif name == "copy":
